@@ -5,7 +5,7 @@ From Glb Require Import Lib.RouteBytes Lib.RouteSpec Model.Router Model.StorePoo
 
 (** Objects (Model/StorePool.v).  A history is a list of labels — atomic actions of single
     goroutines: [LRegister], [LBegin k choice path method] (request k takes ANY pooled Store
-    or a fresh one, gets its id, is routed and enters the relay handler), [LWriteHeader k c],
+    or a fresh one, gets its id, is routed and enters the relay handler), [LWrite k (WriteHeader c | Flush)],
     [LEnd k Returned|Recovered|Escaped] (reset + Put, or — when the panic leaves ServeHTTP —
     the Store is dropped), [LDrop i] (sync.Pool forgets a Store).  Requests overlap freely;
     [run] returns [Ok m], [Disabled] (the list is not a history: unknown request key, pool
@@ -58,7 +58,7 @@ Print Assumptions C05_entry_state.
     request k: what k reads — and in particular its id — is constant while it is in flight ... *)
 Theorem C05_unaffected_by_others : forall m l m' k,
   step m l = Ok m' ->
-  (match l with LBegin k' _ _ _ | LWriteHeader k' _ | LEnd k' _ => k' <> k | _ => True end) ->
+  (match l with LBegin k' _ _ _ | LWrite k' _ | LEnd k' _ => k' <> k | _ => True end) ->
   find_flight k (m_flights m') = find_flight k (m_flights m).
 Proof.
   intros m l m' k Hs Hne. apply (step_frame m l m' k Hs).
@@ -66,11 +66,11 @@ Proof.
 Qed.
 Print Assumptions C05_unaffected_by_others.
 
-(** ... except for its own WriteHeader, which changes W.Status only. *)
-Theorem C05_own_write_header : forall m k code m' f,
-  step m (LWriteHeader k code) = Ok m' -> find_flight k (m_flights m) = Some f ->
+(** ... except for its own WriteHeader / Flush, which change W.Status only (Flush: the implicit 200). *)
+Theorem C05_own_write_header : forall m k op m' f,
+  step m (LWrite k op) = Ok m' -> find_flight k (m_flights m) = Some f ->
   exists f', find_flight k (m_flights m') = Some f'
-    /\ s_status (f_store f') = code /\ s_params (f_store f') = s_params (f_store f)
+    /\ s_status (f_store f') = apply_wop op (s_status (f_store f)) /\ s_params (f_store f') = s_params (f_store f)
     /\ s_id (f_store f') = s_id (f_store f) /\ f_info f' = f_info f /\ f_ticket f' = f_ticket f.
 Proof. exact write_header_own. Qed.
 Print Assumptions C05_own_write_header.
@@ -147,8 +147,8 @@ Definition ex_history : list label :=
   [ LRegister [47;117;47;58;97;47;58;98] GET;
     LBegin 0 None [47;117;47;49;47;50] GET;                 (* request 0 in flight ... *)
     LBegin 1 None [47;110;111;112;101;47;120] GET;                  (* ... while request 1 runs (no route) *)
-    LWriteHeader 1 404; LEnd 1 Returned;
-    LWriteHeader 0 200; LEnd 0 Recovered;    (* request 0: panic recovered by the relay *)
+    LWrite 1 Flush; LWrite 1 (WriteHeader 404); LEnd 1 Returned;
+    LWrite 0 (WriteHeader 201); LWrite 0 Flush; LEnd 0 Recovered;    (* request 0: panic recovered by the relay *)
     LBegin 2 (Some 1%nat) [47;117;47;49;47;50] GET; LEnd 2 Escaped;   (* takes request 0's Store; panic escapes: Store dropped *)
     LRegister [47;118;47;58;99;47;58;100;47;58;101] GET;                   (* a route with MORE params than any before *)
     LBegin 3 (Some 0%nat) [47;118;47;55;47;56;47;57] GET;       (* on the Store request 1 used *)
@@ -166,6 +166,19 @@ Example ex_history_runs :
     /\ begin_ids (new_mux pfx) ex_history = [pfx ++ [49]; pfx ++ [50]; pfx ++ [51]; pfx ++ [52]; pfx ++ [53]]
   | _ => False
   end.
+Proof. vm_compute. repeat split; reflexivity. Qed.
+
+(** W.Status: Flush records the implicit 200 only when nothing was written; the next request starts at 0 again *)
+Example ex_flush_status :
+  match run (new_mux pfx) [LRegister [47;117;47;58;97;47;58;98] GET; LBegin 0 None [47;117;47;49;47;50] GET; LWrite 0 Flush] with
+  | Ok m => option_map ob_status (observe m 0%nat []) = Some 200
+  | _ => False
+  end
+  /\ match run (new_mux pfx) [LBegin 0 None [47;117;47;49;47;50] GET; LWrite 0 (WriteHeader 404); LWrite 0 Flush; LEnd 0 Returned;
+                              LBegin 1 (Some 0%nat) [47;117;47;49;47;50] GET] with
+     | Ok m => option_map ob_status (observe m 1%nat []) = Some 0 /\ length (m_pool m) = 0%nat
+     | _ => False
+     end.
 Proof. vm_compute. repeat split; reflexivity. Qed.
 
 (** registering while a request is in flight is outside the property: the model refuses it *)
